@@ -61,6 +61,8 @@ def _gen(rng, n_ops):
             ops.append({"ev": "get", "off": rng.choice([0, -100000, 1500, 2500, 3600000, 60000])})
         else:
             ops.append({"ev": "get_unlocked"})
+            ops.append({"ev": "should_refresh", "off": rng.choice([0, -100, 1500, 1990, 1995, 2500, 60000, -60000]),
+                        "leeway": rng.choice([-1, -1, 0, 1, 1000, 2000, 100000])})
     return ops
 
 
